@@ -359,6 +359,9 @@ func ErrClass(err error) string {
 	return "other:" + err.Error()
 }
 
+// IDKey is the annotation key under which World stamps every route with its model id.
+type IDKey struct{}
+
 // Viewer is the read API shared by *fox.Router and *fox.Txn.
 type Viewer interface {
 	Has(method, pattern string) bool
@@ -438,6 +441,9 @@ func (w *World) Apply(op Op) {
 	if op.Bad == "nilhandler" {
 		h = nil
 	}
+	// every registration stamps its route with the model id, so that a route object edited in place (same
+	// pointer, other content) shows in every observation
+	stamp := fox.WithAnnotation(IDKey{}, id)
 	var (
 		err     error
 		rte     *fox.Route
@@ -465,20 +471,20 @@ func (w *World) Apply(op Op) {
 	switch op.Kind {
 	case "handle":
 		if w.Txn != nil {
-			rte, err = w.Txn.Handle(op.Method, op.Pattern, h)
+			rte, err = w.Txn.Handle(op.Method, op.Pattern, h, stamp)
 		} else {
-			rte, err = w.F.Handle(op.Method, op.Pattern, h)
+			rte, err = w.F.Handle(op.Method, op.Pattern, h, stamp)
 		}
 	case "update":
 		if w.Txn != nil {
-			rte, err = w.Txn.Update(op.Method, op.Pattern, h)
+			rte, err = w.Txn.Update(op.Method, op.Pattern, h, stamp)
 		} else {
-			rte, err = w.F.Update(op.Method, op.Pattern, h)
+			rte, err = w.F.Update(op.Method, op.Pattern, h, stamp)
 		}
 	case "handleroute", "updateroute":
 		if op.Bad != "nilroute" {
 			var nerr error
-			rte, nerr = w.F.NewRoute(op.Pattern, h)
+			rte, nerr = w.F.NewRoute(op.Pattern, h, stamp)
 			if nerr != nil {
 				w.problem("%s: NewRoute failed for pool pattern: %v", op, nerr)
 				return
@@ -556,7 +562,7 @@ func (w *World) Expect(t *ref.Table) string {
 	for _, l := range t.Listing() {
 		mp := strings.SplitN(l, " ", 2)
 		id, _ := t.ID(mp[0], mp[1])
-		fmt.Fprintf(&sb, "all %s@%p\n", l, w.Routes[id])
+		fmt.Fprintf(&sb, "all %s@%p#%d\n", l, w.Routes[id], id)
 	}
 	for _, m := range w.allMethods() {
 		for _, p := range w.Universe {
@@ -637,7 +643,7 @@ func ObserveIter(v Viewer, it fox.Iter, methods, universe, prefixes []string) st
 	sort.Slice(ents, func(i, j int) bool { return ents[i].k < ents[j].k })
 	var all []string
 	for _, e := range ents {
-		all = append(all, fmt.Sprintf("all %s@%p", e.k, e.r))
+		all = append(all, fmt.Sprintf("all %s@%p#%v", e.k, e.r, e.r.Annotation(IDKey{})))
 	}
 	if n < 0 {
 		n = len(all)
